@@ -624,3 +624,140 @@ pub fn deep_attempt_scope(rep: &mut Report, tag: &str, thorough: bool) {
         }
     }
 }
+
+/// Long literals (around and beyond the 16-byte chunk size of `ByteSeq`) in every position relative to nested
+/// look-arounds of both directions: (pattern, flags, haystacks). The emitter decides the chunk order from the
+/// direction it believes it is in; the nested shapes are where that belief can be wrong.
+pub fn nested_look_literal_cases() -> Vec<(String, &'static str, Vec<String>)> {
+    let lits: Vec<String> = vec![
+        "0123456789abcde".into(),                    // 15
+        "0123456789abcdef".into(),                   // 16
+        "0123456789abcdefX".into(),                  // 17
+        "0123456789abcdefXYZ".into(),                // 19
+        "0123456789abcdefGHIJKLMNOPQRSTUV".into(),   // 32
+        "0123456789abcdefGHIJKLMNOPQRSTUVw".into(),  // 33
+        "abcdefghijklmn\u{e9}qrstu".into(),            // 16-byte boundary inside a 2-byte character
+        "\u{4e2d}\u{6587}abcdefghij\u{20ac}klmnopq".into(),
+    ];
+    let templates: [&str; 14] = [
+        "L", "(?=L)\\w", "(?<=L)!", "(?<=#(?=L))\\w", "(?=.*(?<=L))#", "(?<=L(?!z))!", "(?<=L(?=!))!", "(?<!#(?!L))\\w", "(?<=(?<=L)!)$",
+        "(?=(?=L)\\w)", "(?<=#(?=(L)))\\w", "(?<=#(?=L)(\\w+))!", "(?<=(?=#)#L)!", "(?<!L(?=!))!",
+    ];
+    let mut out = vec![];
+    for l in &lits {
+        // the literal with its two halves swapped at byte 16 (what a reversed chunk order would match)
+        let swapped = {
+            let b = l.as_bytes();
+            if b.len() > 16 && l.is_char_boundary(16) { format!("{}{}", &l[16..], &l[..16]) } else { l.chars().rev().collect() }
+        };
+        let mut miss: Vec<char> = l.chars().collect();
+        let k = miss.len() - 2;
+        miss[k] = '~';
+        let miss: String = miss.into_iter().collect();
+        let hays = vec![
+            format!("id #{}!", l),
+            format!("#{}!", swapped),
+            format!("id #{}! #{}!", miss, l),
+            format!("{}", l),
+            format!("#{}!#{}!", l.to_uppercase(), l),
+        ];
+        for t in templates {
+            for fl in ["", "i", "u", "iu"] {
+                out.push((t.replace('L', l), fl, hays.clone()));
+            }
+        }
+    }
+    // multi-piece class strings under v+i are emitted piece by piece in the same direction-dependent way
+    for t in ["(?<=x(?=[\\q{ab|c}]))", "(?<=[\\q{ab|c}](?!z))!", "(?<=x(?=[\\q{abc|de}]))\\w", "(?=x(?<=[\\q{xab}]))"] {
+        for fl in ["v", "iv"] {
+            out.push((t.to_string(), fl, vec!["xAb!".into(), "xbA!".into(), "xab!".into(), "ab!".into(), "xabc".into(), "xcba".into(), "xde!".into(), "xaB".into()]));
+        }
+    }
+    out
+}
+
+/// Runs the family above: optimized vs unoptimized, backtracker vs PikeVM, the IR semantics model (`semfind`)
+/// and the emitter model (`emit`).
+pub fn nested_look_literal_scope(rep: &mut Report, focus: &str) {
+    use crate::util::*;
+    for (pat, fl, hays) in nested_look_literal_cases() {
+        let (Ok(opt), Ok(noopt)) = (compile(&pat, fl, false), compile(&pat, fl, true)) else {
+            rep.violation(&format!("impl-vs-spec:{}", focus), format!("valid pattern rejected: /{}/{}", pat, fl), pat.clone());
+            continue;
+        };
+        let cps: Vec<u32> = pat.chars().map(|c| c as u32).collect();
+        let ftok = if fl.is_empty() { "-" } else { fl };
+        let ir0 = regress::verif::dump_ir_canon(cps.iter().copied(), make_flags(fl, true)).unwrap().replace(' ', "~");
+        let ir1 = regress::verif::dump_ir_canon(cps.iter().copied(), make_flags(fl, false)).unwrap().replace(' ', "~");
+        rep.tie(format!("emit {} {}", ftok, ir1), prog_token(&opt));
+        rep.tie(format!("emit {}O {}", if ftok == "-" { "" } else { ftok }, ir0), prog_token(&noopt));
+        for h in &hays {
+            let label = format!("/{}/{} on {:?}", pat, fl, h);
+            rep.count("nested-look-literal");
+            let a = crate::ops_engine::run_exec(&opt, Exec::Bt, h, 0, 64);
+            rep.case(&label, !a.text.is_empty());
+            for (re, e, name) in [(&noopt, Exec::Bt, "backtracker, no_opt"), (&opt, Exec::Pk, "PikeVM"), (&noopt, Exec::Pk, "PikeVM, no_opt")] {
+                let b = crate::ops_engine::run_exec(re, e, h, 0, 64);
+                if crate::ops_engine::differ(&a.text, &b.text) {
+                    rep.violation(&format!("impl-vs-impl:{}", focus), format!("backtracker (optimized) [{}] vs {} [{}]", a.text, name, b.text), label.clone());
+                }
+            }
+            let first = a.text.split(' ').next().unwrap_or("").to_string();
+            let want = if first.is_empty() { "none".to_string() } else { format!("m {}", first) };
+            rep.tie(format!("semfind {} {} {} 0", ftok, ir1, crate::ast::bytes_hex(h.as_bytes())), want.clone());
+            rep.tie(format!("semfind {} {} {} 0", ftok, ir0, crate::ast::bytes_hex(h.as_bytes())), want);
+        }
+    }
+}
+
+/// Dense candidates: every position of a long run is a prefilter candidate whose attempt fails, and the only
+/// match starts right after the run. Run lengths: EVERY n up to 4200 and n = 2^k - 2 ..= 2^k + 2 up to 2^17
+/// (heuristics that switch strategy after "many" candidates have their thresholds somewhere); searches from
+/// offset 0, 1 and n/2; closed-form expected match; backtracker (prefix search) vs PikeVM vs closed form.
+pub fn dense_candidate_scope(rep: &mut Report, tag: &str) {
+    use crate::util::*;
+    let mut ns: Vec<usize> = (1..=4200).collect();
+    for k in 13..=17 {
+        for d in 0..5usize {
+            ns.push((1usize << k) + d - 2);
+        }
+    }
+    // (pattern, run character, tail, length of the match counted from the last run character)
+    let pats: [(&str, char, &str, usize); 4] = [("a[bc]", 'a', "b", 2), ("ab", 'a', "b", 2), ("[ab]c", 'a', "c", 2), ("\\u{e9}x", '\u{e9}', "x", 3)];
+    for (p, run, tail, mlen) in pats {
+        let re = compile(p, "", false).unwrap();
+        let w = run.len_utf8();
+        for &n in &ns {
+            if run != 'a' && n % 7 != 0 && n < 4000 {
+                continue;
+            }
+            let hay = format!("{}{}", run.to_string().repeat(n), tail);
+            let ms = (n - 1) * w;
+            let want = format!("{}-{}[]", ms, ms + mlen);
+            rep.count("dense-candidates");
+            for start in [0usize, w, (n / 2) * w] {
+                if start > ms {
+                    continue;
+                }
+                for e in [Exec::Bt, Exec::Pk] {
+                    if matches!(e, Exec::Pk) && (n % 64 != 0 || start != 0) {
+                        continue;
+                    }
+                    regress::verif::fuel::reset(u64::MAX);
+                    let got = match guarded(std::panic::AssertUnwindSafe(|| fmt_matches(&find_all(&re, e, &hay, start, 0).0))) {
+                        Ok(t) => t,
+                        Err(m) => format!("panic: {}", m),
+                    };
+                    if got != want {
+                        rep.violation(
+                            &format!("impl-vs-oracle:{}", tag),
+                            format!("{}: expected [{}], got [{}]", e.name(), want, got),
+                            format!("/{}/ on {:?}*{} + {:?} from {}", p, run, n, tail, start),
+                        );
+                    }
+                }
+            }
+        }
+    }
+    rep.case("dense candidates", true);
+}
